@@ -18,6 +18,8 @@ from spec.groups import MOD, ALL_SYMS, sym_class
 from contracts.c13 import BackendProxy
 from contracts.c02 import h_transpose, h_moveaxis, h_add_leg, h_remove_leg, h_consume, h_diag
 from contracts.t_contract import h_tensordot, h_trace, h_vdot, h_add, h_broadcast
+import contracts.c03 as C3
+from contracts.c03 import h_fused_trace
 
 PROPERTY = 'C01'
 FUNCTIONS = ['yastn.tensor._contractions:tensordot', 'yastn.tensor._contractions:vdot', 'yastn.tensor._contractions:trace',
@@ -392,4 +394,6 @@ def units(tier):
                 U.append(('h_values_network', f"{sym},{policy},case{case}", dict(sym=sym, case=case, policy=policy)))
             for pattern in (0b10110101, 0b01001110) + ((0b11111110, 0b00010000) if th else ()):
                 U.append(('h_values_mask', f"{sym},case{case},pattern={pattern:08b}", dict(sym=sym, case=case, pattern=pattern)))
+    # part C: trace over fused legs of different content while a permutation / meta-fusion is pending (logical != native positions)
+    U += [u for u in C3.units(tier) if u[0] == 'h_fused_trace' and 'in-place' not in u[1]]
     return U
